@@ -71,9 +71,18 @@ func genC12(r *kit.RNG) *C12Scenario {
 	sc := &C12Scenario{Seed: r.Uint64(), Topology: kit.Pick(r, c12Topologies), N: r.Range(2, 14), Signed: r.Chance(0.4),
 		Mode: kit.Pick(r, []string{"enforce", "enforce", "enforce", "shadow", "off"}), QnameMin: kit.Pick(r, []int{0, 3, 5}),
 		MaxOutbound: uint32(kit.Pick(r, []int{1, 2, 3, 5, 8, 16, 40, 128})), MaxInternal: uint32(kit.Pick(r, []int{1, 2, 4, 32})),
-		Lame: kit.Pick(r, []string{"", "", "refused", "servfail", "silent", "self-referral"})}
+		Lame: kit.Pick(r, []string{"", "", "refused", "servfail", "silent", "self-referral", "shallow-referral"})}
 	if sc.Topology == "many-keys" || sc.Topology == "nsec3-iter" {
 		sc.Signed = true
+	}
+	if sc.Lame == "shallow-referral" {
+		// the restart-without-minimisation path: needs minimisation on and a budget it can cross
+		sc.Topology, sc.Signed = "lame", false
+		sc.QnameMin = kit.Pick(r, []int{3, 5})
+		sc.MaxOutbound = uint32(kit.Pick(r, []int{3, 4, 5, 6, 7, 8, 16}))
+		if r.Chance(0.7) {
+			sc.Mode = "enforce"
+		}
 	}
 	names := c12Names(sc)
 	n := r.Range(1, 5)
@@ -96,6 +105,9 @@ func c12Names(sc *C12Scenario) []string {
 	case "deep":
 		return []string{"www." + strings.Repeat("s.", sc.N) + "deep.test."}
 	case "lame":
+		if sc.Lame == "shallow-referral" {
+			return []string{"w.x.y.deep.lame.test.", "v.w.x.y.deep.lame.test.", "www.lame.test."}
+		}
 		return []string{"www.lame.test.", "nx.lame.test."}
 	case "many-keys":
 		return []string{"www.keys.test.", "nx.keys.test."}
@@ -230,7 +242,37 @@ func execC12(sc *C12Scenario, tr *kit.Trace, res *kit.Result, ts *c12Transcript,
 		if honest.Zone == nil {
 			return nil
 		}
-		if honest.Zone.Name == "lame.test." && sc.Lame != "" {
+		if honest.Zone.Name == "lame.test." && sc.Lame == "shallow-referral" {
+			// An inconsistent authority: minimised probes for intermediate names get an empty
+			// NOERROR, then a deeper probe gets a referral for a cut two or more labels above
+			// it (the resolver restarts from the root without minimisation); the full name gets
+			// its address.
+			qn := dns.CanonicalName(q.Msg.Question[0].Name)
+			if !dns.IsSubDomain("deep.lame.test.", qn) {
+				return nil
+			}
+			m := new(dns.Msg)
+			m.SetReply(q.Msg)
+			m.Authoritative = true
+			soa := &dns.SOA{Hdr: dns.RR_Header{Name: "lame.test.", Rrtype: dns.TypeSOA, Class: dns.ClassINET, Ttl: 60}, Ns: "ns.lame.test.", Mbox: "h.lame.test.", Serial: 1, Refresh: 1, Retry: 1, Expire: 1, Minttl: 60}
+			labels := dns.CountLabel(qn)
+			switch {
+			case labels >= 7 && q.Msg.Question[0].Qtype == dns.TypeA: // w.x.y.deep.lame.test. and deeper
+				m.Answer = []dns.RR{&dns.A{Hdr: dns.RR_Header{Name: q.Msg.Question[0].Name, Rrtype: dns.TypeA, Class: dns.ClassINET, Ttl: 60}, A: []byte{192, 0, 2, 206}}}
+			case labels >= 5: // x.y.deep.lame.test.: a referral for deep.lame.test., two labels up
+				m.Authoritative = false
+				m.Ns = []dns.RR{&dns.NS{Hdr: dns.RR_Header{Name: "deep.lame.test.", Rrtype: dns.TypeNS, Class: dns.ClassINET, Ttl: 3600}, Ns: "ns.lame.test."}}
+				m.Extra = []dns.RR{&dns.A{Hdr: dns.RR_Header{Name: "ns.lame.test.", Rrtype: dns.TypeA, Class: dns.ClassINET, Ttl: 3600}, A: addr.AsSlice()}}
+			default:
+				m.Ns = []dns.RR{soa}
+			}
+			if o := q.Msg.IsEdns0(); o != nil {
+				m.SetEdns0(1232, o.Do())
+			}
+			res.Fault("lame:shallow-referral")
+			return world.PackReply(m, q)
+		}
+		if honest.Zone.Name == "lame.test." && sc.Lame != "" && sc.Lame != "shallow-referral" {
 			m := new(dns.Msg)
 			m.SetReply(q.Msg)
 			switch sc.Lame {
